@@ -82,6 +82,8 @@ pub enum Op {
     Wait(u32),
     DropHandle(u32),
     DropBarrier(u32),
+    /// drop the parked future of trigger call `t` (direct: the boxed future; sim: abort its task)
+    Abandon(u32),
 }
 
 impl Op {
@@ -100,6 +102,7 @@ impl Op {
             Op::Wait(b) => format!("ctl wait {b}"),
             Op::DropHandle(t) => format!("ctl drophandle {t}"),
             Op::DropBarrier(b) => format!("ctl dropbarrier {b}"),
+            Op::Abandon(t) => format!("ctl abandon {t}"),
         }
     }
     fn parse(toks: &[String]) -> Option<Op> {
@@ -120,6 +123,7 @@ impl Op {
             "wait" => Some(Op::Wait(toks.get(2)?.parse().ok()?)),
             "drophandle" => Some(Op::DropHandle(toks.get(2)?.parse().ok()?)),
             "dropbarrier" => Some(Op::DropBarrier(toks.get(2)?.parse().ok()?)),
+            "abandon" => Some(Op::Abandon(toks.get(2)?.parse().ok()?)),
             _ => None,
         }
     }
@@ -405,6 +409,10 @@ impl Backend for Direct {
             Op::Wait(b) => self.test.wait(*b),
             Op::DropHandle(t) => self.test.drop_handle(*t),
             Op::DropBarrier(b) => self.test.drop_barrier(*b),
+            Op::Abandon(t) => {
+                self.pending.retain(|(tid, _)| tid != t);
+                "ok".into()
+            }
         };
         let resumed = self.poll_pending();
         Some((res, resumed))
@@ -418,6 +426,7 @@ impl Backend for Direct {
 enum HostOp {
     Trigger { tid: u32, ty: u8, val: u32 },
     TriggerNoop { tid: u32, ty: u8, val: u32 },
+    Abandon { tid: u32 },
 }
 
 struct HostLink {
@@ -426,6 +435,8 @@ struct HostLink {
 }
 
 struct SimBackend {
+    /// which host issued trigger call tid
+    owner: BTreeMap<u32, usize>,
     sim: Option<turmoil::Sim<'static>>,
     hosts: Vec<HostLink>,
     /// tid -> 1 started, 2 finished
@@ -466,6 +477,7 @@ impl SimBackend {
                     f.write_at(&[0x55u8; 4096], 0)?;
                     files.push(f);
                 }
+                let mut tasks: BTreeMap<u32, tokio::task::JoinHandle<()>> = BTreeMap::new();
                 loop {
                     notify.notified().await;
                     loop {
@@ -473,11 +485,17 @@ impl SimBackend {
                         match op {
                             HostOp::Trigger { tid, ty, val } => {
                                 let flags = flags.clone();
-                                tokio::task::spawn_local(async move {
+                                let jh = tokio::task::spawn_local(async move {
                                     flags.borrow_mut().insert(tid, 1);
                                     make_trigger(ty, val, tid).await;
                                     flags.borrow_mut().insert(tid, 2);
                                 });
+                                tasks.insert(tid, jh);
+                            }
+                            HostOp::Abandon { tid } => {
+                                if let Some(jh) = tasks.remove(&tid) {
+                                    jh.abort();
+                                }
                             }
                             HostOp::TriggerNoop { tid, ty, val } => {
                                 flags.borrow_mut().insert(tid, 1);
@@ -496,7 +514,7 @@ impl SimBackend {
                 }
             });
         }
-        let mut me = SimBackend { sim: Some(sim), hosts, flags, suspended: vec![], test: TestSide::default(), next_tid: 0 };
+        let mut me = SimBackend { owner: BTreeMap::new(), sim: Some(sim), hosts, flags, suspended: vec![], test: TestSide::default(), next_tid: 0 };
         // one step so that every host has created its files and parked on `notified()`
         let _ = me.step();
         me
@@ -550,6 +568,7 @@ impl Backend for SimBackend {
                 let tid = self.next_tid;
                 self.next_tid += 1;
                 issued = Some(tid);
+                self.owner.insert(tid, (*host as usize) % NHOSTS);
                 let link = &self.hosts[(*host as usize) % NHOSTS];
                 let hop = if matches!(op, Op::Trigger { .. }) {
                     HostOp::Trigger { tid, ty: *ty, val: *val }
@@ -563,6 +582,14 @@ impl Backend for SimBackend {
             Op::Wait(b) => self.test.wait(*b),
             Op::DropHandle(t) => self.test.drop_handle(*t),
             Op::DropBarrier(b) => self.test.drop_barrier(*b),
+            Op::Abandon(t) => {
+                if let Some(h) = self.owner.get(t).copied() {
+                    self.hosts[h].queue.borrow_mut().push_back(HostOp::Abandon { tid: *t });
+                    self.hosts[h].notify.notify_one();
+                }
+                self.suspended.retain(|x| x != t);
+                "ok".into()
+            }
         };
         let stepped = self.step();
         let res = match (issued, stepped) {
@@ -606,6 +633,7 @@ impl Backend for SimBackend {
                 _ => unreachable!(),
             };
             issued.push((tid, *i));
+            self.owner.insert(tid, *h);
             let hop = if *is_async { HostOp::Trigger { tid, ty, val } } else { HostOp::TriggerNoop { tid, ty, val } };
             self.hosts[*h].queue.borrow_mut().push_back(hop);
         }
@@ -884,6 +912,7 @@ fn random_case(rng: &mut Rng, sim: bool, fshook: bool) -> Vec<Op> {
     let mut live: Vec<u32> = vec![];
     let mut trig = 0u32;
     let mut maybe_handles: Vec<u32> = vec![];
+    let sim_no_abandon = false;
     // reaction weights: panics are rarer in sim cases (they end the case)
     let pick_react = |rng: &mut Rng| -> React {
         let x = rng.below(if sim { 12 } else { 7 });
@@ -921,6 +950,8 @@ fn random_case(rng: &mut Rng, sim: bool, fshook: bool) -> Vec<Op> {
             trig += 1;
         } else if x < 75 && !live.is_empty() {
             ops.push(Op::Wait(*rng.pick(&live)));
+        } else if x < 78 && trig > 0 && !sim_no_abandon {
+            ops.push(Op::Abandon(rng.below(trig as u64) as u32));
         } else if x < 90 && !maybe_handles.is_empty() {
             let i = rng.below(maybe_handles.len() as u64) as usize;
             ops.push(Op::DropHandle(maybe_handles.remove(i)));
@@ -1179,6 +1210,23 @@ pub fn main(args: &Args, out: &mut dyn Write) {
         }
         for _ in 0..(n_sim_rand / 2).max(40) {
             cases.push(Case { family: "samestep", backend: "sim", ops: samestep_case(&mut rng), dropfiles: false, batch: true });
+        }
+        // every order of 3 steps out of {wait, abandon, drop handle, drop barrier, another trigger} after one parked call
+        {
+            let alphabet = [Op::Wait(0), Op::Abandon(0), Op::DropHandle(0), Op::DropBarrier(0), Op::Trigger { host: 1, ty: 0, val: 0 }];
+            for a in 0..5 {
+                for b in 0..5 {
+                    for c in 0..5 {
+                        let mut ops = vec![Op::Build { r: React::Suspend, ty: 0, c: Cond::Any }, Op::Trigger { host: 0, ty: 0, val: 0 }];
+                        ops.push(alphabet[a].clone());
+                        ops.push(alphabet[b].clone());
+                        ops.push(alphabet[c].clone());
+                        ops.extend([Op::Wait(0), Op::Wait(0), Op::DropBarrier(0), Op::DropHandle(0), Op::DropHandle(1), Op::DropHandle(2), Op::DropHandle(3)]);
+                        let sim = (a + b + c) % 3 == 0;
+                        cases.push(Case { family: "abandon", backend: if sim { "sim" } else { "direct" }, ops, dropfiles: false, batch: false });
+                    }
+                }
+            }
         }
         // F-C20-1 territory: a panicking reaction reached through the fs corruption hook while the host holds open files.
         let t2 = |host: u8, val: u32| Op::TriggerNoop { host, ty: 2, val };
